@@ -491,12 +491,21 @@ fn body_ops<const B: usize, const L: usize>(c: &Case, rec: &mut Rec) -> R {
 // rule "shifts": every shift / rotate surface
 
 fn strat_shifts(bits: usize) -> BoxedStrategy<Case> {
-    (uint(bits), amount(bits))
-        .prop_map(move |(a, n)| {
-            // the Uint-typed amount: n reduced to the width, high limbs zero
-            // (amounts that do not fit usize have no inherent call: excluded)
+    (uint(bits), amount(bits), 0u8..5, any::<u64>())
+        .prop_map(move |(a, n, high, h)| {
+            // the Uint-typed amount: n reduced to the width, high limbs zero; one in five (for
+            // widths above 64 bits) instead has a small low limb and a non-zero higher limb, i.e.
+            // a value >= 2^64, whose inherent counterpart is the amount saturated to usize::MAX
             let nl = nlimbs(bits);
-            let m = if nl == 0 { vec![] } else { let mut v = vec![0u64; nl]; v[0] = n; mask_vec(v, bits) };
+            let mut m = if nl == 0 { vec![] } else { let mut v = vec![0u64; nl]; v[0] = n; mask_vec(v, bits) };
+            if high == 0 && nl >= 2 {
+                m[0] = n % (bits as u64 + 2);
+                m[1 + (h as usize >> 8) % (nl - 1)] |= (h & 0xff) | 1;
+                m = mask_vec(m, bits);
+                if m[1..].iter().all(|x| *x == 0) {
+                    m[1] = 1;
+                }
+            }
             Case::new().l(a).l(m).n(n)
         })
         .boxed()
@@ -543,9 +552,11 @@ fn body_shifts<const B: usize, const L: usize>(c: &Case, rec: &mut Rec) -> R {
     shift_ty!(rec, a, n, i32, &rl, &rr);
     shift_ty!(rec, a, n, i64, &rl, &rr);
 
-    // Uint-typed amount (value fits usize by construction)
+    // Uint-typed amount: fits usize, or is >= 2^64 and corresponds to the saturated amount
     {
-        let mv = if L == 0 { 0usize } else { m.as_limbs()[0] as usize };
+        let beyond = L >= 2 && m.as_limbs()[1..].iter().any(|x| *x != 0);
+        rec.class_if(beyond, "uint_amount>=2^64");
+        let mv = if L == 0 { 0usize } else if beyond { usize::MAX } else { m.as_limbs()[0] as usize };
         let ml = catch(|| a.wrapping_shl(mv));
         let mr = catch(|| a.wrapping_shr(mv));
         agree(rec, "Shl<Uint>", catch(|| a << m), &ml)?;
@@ -1118,11 +1129,11 @@ fn main() {
     selftest();
     let spec = PropSpec {
         id: "C20",
-        rule_text: "Differential inside the library: reference = inherent Uint method (or plain ==,<,>; limb-wise &|^ and a byte-reversal oracle computed by the harness), subject = every facade. Rules: ops (six shapes of + - * / % & | ^, Neg/Not val/ref, Sum/Product over value and reference iterators incl. empty), shifts (<< >> value/ref/assign/ref-assign for usize,u8,u16,u32,u64,isize,i8,i16,i32,i64 with non-negative amounts and for Uint amounts that fit usize; Bits shift operators and forwarded shift/rotate methods; CheckedShl/Shr, WrappingShl/Shr, PrimInt rotate/signed/unsigned shifts), bits (all other forwarded Bits methods, constants, From/Into, Default, Eq/Hash, FromStr, from_str_radix, byte constructors, Index, Not, & | ^ shapes; Zeroize), num_traits (all non-shift impls incl. default methods with integer targets), num_integer (13 implemented methods + gcd_lcm + divides), subtle (ct_eq/ne/gt/lt, select/assign/swap, conditional_negate, bit_ct). Inputs: operand pairs from 9 classes (independent boundary-alphabet values, b=2^B-a+{-1,0,1}, a==b, b==0, a==0, one-limb b, b=a+-1, two limbs changed in opposite directions, both shifted down), amounts from index_around(BITS,70) plus integer-type truncation boundaries and huge values, byte strings around the canonical encodings, digit strings in radix 0..=64 and beyond. Non-trivial: the case discriminates, i.e. at least one plausible wrong forward (wrapping/checked/saturating sibling, swapped operands, div<->rem, shl<->shr, add<->sub, and<->or<->xor, rotate left<->right, le<->be, truncated amount, signed<->unsigned conversion ...) gives a different result than the correct inherent method on this input; per-kind counts are the `disc:*` classes.",
+        rule_text: "Differential inside the library: reference = inherent Uint method (or plain ==,<,>; limb-wise &|^ and a byte-reversal oracle computed by the harness), subject = every facade. Rules: ops (six shapes of + - * / % & | ^, Neg/Not val/ref, Sum/Product over value and reference iterators incl. empty), shifts (<< >> value/ref/assign/ref-assign for usize,u8,u16,u32,u64,isize,i8,i16,i32,i64 with non-negative amounts and for Uint amounts that fit usize or are >= 2^64 with a small low limb (reference: the inherent method at the amount saturated to usize::MAX); Bits shift operators and forwarded shift/rotate methods; CheckedShl/Shr, WrappingShl/Shr, PrimInt rotate/signed/unsigned shifts), bits (all other forwarded Bits methods, constants, From/Into, Default, Eq/Hash, FromStr, from_str_radix, byte constructors, Index, Not, & | ^ shapes; Zeroize), num_traits (all non-shift impls incl. default methods with integer targets), num_integer (13 implemented methods + gcd_lcm + divides), subtle (ct_eq/ne/gt/lt, select/assign/swap, conditional_negate, bit_ct). Inputs: operand pairs from 9 classes (independent boundary-alphabet values, b=2^B-a+{-1,0,1}, a==b, b==0, a==0, one-limb b, b=a+-1, two limbs changed in opposite directions, both shifted down), amounts from index_around(BITS,70) plus integer-type truncation boundaries and huge values, byte strings around the canonical encodings, digit strings in radix 0..=64 and beyond. Non-trivial: the case discriminates, i.e. at least one plausible wrong forward (wrapping/checked/saturating sibling, swapped operands, div<->rem, shl<->shr, add<->sub, and<->or<->xor, rotate left<->right, le<->be, truncated amount, signed<->unsigned conversion ...) gives a different result than the correct inherent method on this input; per-kind counts are the `disc:*` classes.",
         assumptions: vec![
             "the inherent methods are the reference (decided independently by C01-C13); a defect shared by facade and inherent method is invisible here by construction",
             "x86-64 little-endian target only (to_ne/from_ne = le, to_be/from_be = swap_bytes)",
-            "excluded: PrimInt::pow with an exponent that does not fit the width; swap_bytes/from_be/to_be for BITS % 8 != 0; negative amounts for signed shift operators; Uint shift amounts that do not fit usize (no inherent call exists; DESIGN defect 4 belongs to C05)",
+            "excluded: PrimInt::pow with an exponent that does not fit the width; swap_bytes/from_be/to_be for BITS % 8 != 0; negative amounts for signed shift operators",
             "not asserted (ambiguous mapping): ToPrimitive::to_f32/to_f64 and FromPrimitive::from_f32/from_f64 defaults, NumCast from floats and from Uint values above u128::MAX, Integer::next_multiple_of/prev_multiple_of defaults",
             "harness profile has debug-assertions and overflow-checks on",
         ],
